@@ -1078,7 +1078,7 @@ def check_result_dict(ctx, rd, h, det):
     ok = ok and _exact(ctx, "cost", rd.get("cost"), float(h["cost"]), det)
     ok = ok and _exact(ctx, "ndf", rd.get("ndf"), h["ndf"], det)
     ok = ok and _exact(ctx, "goodness_of_fit", rd.get("goodness_of_fit"), h["gof"], det)
-    ok = ok and _exact(ctx, "gof/ndf", rd.get("gof/ndf"), None if h["gof"] is None else h["gof"] / h["ndf"], det)
+    ok = ok and _exact(ctx, "gof/ndf", rd.get("gof/ndf"), None if (h["gof"] is None or h["ndf"] == 0) else h["gof"] / h["ndf"], det)
     ok = ok and _exact(ctx, "chi2_probability", rd.get("chi2_probability"), h["p"], det)
     pv = rd.get("parameter_values")
     ok = ok and _exact(ctx, "parameter_values.names", list(pv.keys()) if pv is not None else None, names, det)
